@@ -9,12 +9,14 @@ by Lanes_Trace (acceptance order, skips, lane closing and lane exit inferred by 
 def run(ctx):
     fam = "lanes"
     ctx.tlc_mc(fam, "Lanes", "Lanes_MC.cfg", workers=4, coverage=ctx.thorough)
+    ctx.tlc_mc(fam, "Lanes", "Lanes_MC_pchan.cfg", workers=4, coverage=ctx.thorough)
     ctx.tlc_mc(fam, "Lanes", "Lanes_MC_mline.cfg", workers=4, coverage=ctx.thorough)
     ctx.tlc_mc(fam, "Lanes", "Lanes_MC_bug.cfg", workers=1, expect_violation="SlotInRange")
     ctx.tlc_mc(fam, "Lanes", "Lanes_MC_bug2.cfg", workers=1, expect_violation="NoLateAccept")
     ctx.tlc_mc(fam, "Lanes", "Lanes_MC_bug3.cfg", workers=1, expect_violation="NoOrphan")
     ctx.tlc_mc(fam, "Lanes", "Lanes_MC_live.cfg", workers=4)
     if ctx.thorough:
+        ctx.tlc_mc(fam, "Lanes", "Lanes_MC_live_big.cfg", workers=8, timeout=3000)
         ctx.tlc_mc(fam, "Lanes", "Lanes_MC_big.cfg", workers=16, timeout=3000, heap="16g")
     pdir, plans = ctx.tlc_plans(fam, "Lanes_Gen", "Lanes_Gen.cfg", num=ctx.q(150, 2500), depth=44)
     binary = ctx.go_build("c14")
